@@ -225,6 +225,13 @@ func runLimitGrid(t *testing.T, size uint64, viaRPC bool, unstable bool) {
 		f := LiveRef(sd.N.Children[name])
 		gr.must(x.Write(f, 0, patternData(uint32(100+j), 3*BlockSize), 3*BlockSize, nt.FILE_SYNC))
 		e := end
+		if end > max {
+			// a size beyond the limit arriving together with other attributes (every combination in turn): refused as a whole
+			for k := 0; k < 7; k++ {
+				gr.must(x.Setattr(f, &e, true))
+				gr.req(nl, "setattr+attrs", end, k)
+			}
+		}
 		gr.must(x.Setattr(f, &e, false))
 		gr.req(nl, "setattr", end)
 		gr.must(x.Getattr(f))
